@@ -127,6 +127,9 @@ type Script struct {
 	AllStalls []chan struct{}
 	// Blocking are the channels handlers are currently blocked on
 	Blocking []chan struct{}
+	// Dead: stalls that are not released when the timeout is reported (the
+	// handler outlives HandlerDeadline); their channels live on the Recorder
+	Dead map[string]bool
 }
 
 type NestedMut struct {
@@ -153,6 +156,8 @@ type Recorder struct {
 	FiredPanics []string
 	// OnHandler, if set, is called inside every handler body
 	OnHandler func(b int, h HName, e *am.Event)
+	// channels of the handlers that outlive HandlerDeadline (Script.Dead)
+	deadChans []chan struct{}
 }
 
 func NewRecorder() *Recorder {
@@ -283,7 +288,11 @@ func (r *Recorder) onHandler(b int, h HName, e *am.Event) (ret bool) {
 	}
 	if stall != nil {
 		delete(sc.Stall, key)
-		sc.Blocking = append(sc.Blocking, stall)
+		if sc.Dead[key] {
+			r.deadChans = append(r.deadChans, stall)
+		} else {
+			sc.Blocking = append(sc.Blocking, stall)
+		}
 	}
 	call := HCall{B: b, H: h, See: see}
 	if r.cur != nil {
@@ -349,6 +358,26 @@ func (r *Recorder) ReleaseBlocked() {
 		}
 	}
 	r.script.Blocking = nil
+}
+
+// ReleaseDead lets the handlers that outlived HandlerDeadline return; it
+// reports how many there were.
+func (r *Recorder) ReleaseDead() int {
+	r.mu.Lock()
+	defer r.mu.Unlock()
+	n := len(r.deadChans)
+	for _, ch := range r.deadChans {
+		close(ch)
+	}
+	r.deadChans = nil
+	return n
+}
+
+// NLines is the number of lines collected since the last Take.
+func (r *Recorder) NLines() int {
+	r.mu.Lock()
+	defer r.mu.Unlock()
+	return len(r.Lines)
 }
 
 // ReleaseStalls closes every stall channel of the current script.
